@@ -14,8 +14,10 @@ import traceback
 from mc import env
 
 VERIF = env.VERIF
-EVIDENCE_DIR = VERIF / "evidence"
-REPLAY_DIR = VERIF / "replays"
+# the registered commands never set these; the mutation tooling redirects them so that runs against a
+# scratch copy (VERIF_REPO) do not overwrite the evidence of the real tree
+EVIDENCE_DIR = pathlib.Path(os.environ.get("VERIF_EVIDENCE_DIR") or VERIF / "evidence")
+REPLAY_DIR = pathlib.Path(os.environ.get("VERIF_REPLAY_DIR") or VERIF / "replays")
 KNOWN = VERIF / "known_findings.json"
 MAX_REPORTED = 12
 
@@ -165,7 +167,7 @@ def write_evidence(res, tier, seed, wall, violations):
         "wall_s": round(wall, 2),
         "violations": violations,
     }
-    EVIDENCE_DIR.mkdir(exist_ok=True)
+    EVIDENCE_DIR.mkdir(exist_ok=True, parents=True)
     text = json.dumps(doc, indent=1, default=repr, ensure_ascii=False)
     path = EVIDENCE_DIR / f"{res.pid}.json"
     path.write_text(text + "\n")
